@@ -1,10 +1,17 @@
 (* Obligations about the REGENERATED table gen/AliasBodies.v: the slice-relevant behaviour of
    the body of every function of the library that takes, keeps or returns byte memory (as far as
    the translator's subset reaches; the others are listed in c19_body_untranslated), as a program of
-   model/HeapProg.v.  Checked by computation on the table:
-     - every translated body passes the ownership analysis from its initial flags;
+   model/HeapProg.v.  Checked by computation on the table, for every entry:
+     - the body passes the ownership analysis from its initial flags (write flags / keep flags);
+     - object registers are never copied (one register per may-alias class);
+     - CALL SITES: every call record SCall c args eff meets the contract of entry c of this same table:
+       each caller register handed to a parameter that c may write through is written through in eff,
+       each one handed to a parameter that c may keep escapes in eff - so the inter-procedural half is an
+       obligation over the table, not trust in the translator's summaries (what a RESULT may alias is
+       still the translator's);
      - an API function (exported, non-internal package) that is not in the exception list starts
-       with NO owned parameter: it may not write through, keep or return any memory it was given;
+       with NO writable and NO keepable parameter;
+     - WHITELIST: no entry may write through a parameter whose type is in c19_immutable_types;
      - the counts add up (considered = translated + untranslated).
    Consequence (HeapProgProofs.disciplined_body_frames_the_caller): the frame theorem holds for
    every execution of every entry of the table. *)
@@ -12,8 +19,19 @@ From Coq Require Import List String Bool Arith.
 From Tink Require Import Heap HeapProofs HeapProg HeapProgProofs AliasBodies.
 Import ListNotations.
 
+(* the contract of entry c: the write flags and keep flags of its parameter registers *)
+Definition contract_of (c : nat) : list bool * list bool :=
+  match nth_error c19_bodies c with
+  | Some e => (firstn (fb_np e) (fb_wflags e), firstn (fb_np e) (fb_kflags e))
+  | None => ([], [])
+  end.
+
 Definition body_ok (e : fn_body) : bool :=
-  Nat.eqb (List.length (fb_flags e)) (fb_nregs e) && body_disciplined (fb_flags e) (fb_prog e).
+  Nat.eqb (List.length (fb_wflags e)) (fb_nregs e) && Nat.eqb (List.length (fb_kflags e)) (fb_nregs e) &&
+  Nat.leb (fb_np e) (fb_nregs e) &&
+  body_disciplined (fb_wflags e) (fb_kflags e) (fb_prog e) &&
+  obj_wf (fb_objs e) (fb_prog e) &&
+  calls_ok contract_of (fb_prog e).
 
 Theorem every_body_ok : forallb body_ok c19_bodies = true.
 Proof. vm_compute. reflexivity. Qed.
@@ -21,49 +39,65 @@ Proof. vm_compute. reflexivity. Qed.
 Definition excepted (e : fn_body) : bool :=
   existsb (fun x => let '(p, f, _) := x in String.eqb p (fb_pkg e) && String.eqb f (fb_fn e)) c19_body_exceptions.
 
-(* an API function outside the exception list owns none of its parameters *)
+(* an API function outside the exception list may write through / keep none of its parameters *)
 Definition api_flags_ok (e : fn_body) : bool :=
-  if fb_api e && negb (excepted e) then forallb negb (fb_flags e) else true.
+  if fb_api e && negb (excepted e) then forallb negb (fb_wflags e) && forallb negb (fb_kflags e) else true.
 
 Theorem api_bodies_own_nothing : forallb api_flags_ok c19_bodies = true.
+Proof. vm_compute. reflexivity. Qed.
+
+(* the whitelist of immutable object types is consistent with the table: no entry writes through a
+   parameter of a whitelisted type (the library struct types of the list were put there for that reason; this
+   re-checks it on the emitted flags) *)
+Definition whitelisted (ty : string) : bool :=
+  existsb (fun x => String.eqb (fst x) ty) c19_immutable_types.
+
+Definition immutable_ok (e : fn_body) : bool :=
+  forallb (fun rt => if whitelisted (snd rt) then negb (nth (fst rt) (fb_wflags e) false) else true) (fb_ptypes e).
+
+Theorem immutable_types_are_not_written : forallb immutable_ok c19_bodies = true.
 Proof. vm_compute. reflexivity. Qed.
 
 Theorem body_counts_add_up :
   List.length c19_bodies = c19_bodies_translated /\
   c19_bodies_translated + List.length c19_body_untranslated = c19_bodies_considered /\
-  List.length (filter fb_api c19_bodies) = c19_bodies_api.
+  List.length (filter fb_api c19_bodies) = c19_bodies_api /\
+  List.length (filter (fun e => can_fail (fb_prog e)) c19_bodies) = c19_bodies_that_can_fail.
 Proof. vm_compute. auto. Qed.
 
 Theorem body_table_not_trivial :
   Nat.ltb 1000 c19_bodies_translated = true /\ Nat.ltb 5000 c19_bodies_instructions = true /\
+  Nat.ltb 500 c19_bodies_that_can_fail = true /\ Nat.ltb 1000 c19_bodies_call_records = true /\
   Nat.ltb (4 * List.length c19_body_untranslated) c19_bodies_considered = true.
 Proof. vm_compute. auto. Qed.
 
 (* THE TIE, body level.  For EVERY translated function body of the table, every caller heap, every
    choice of the argument slices (and of the garbage in the other registers), every execution - all
    branches, any number of loop iterations, any indices and bytes, also executions that stop early -
-   (1) no array of the caller changes except those of the parameters flagged in the entry, and
+   (1) no array of the caller changes except those of the parameters with a write flag, and
    (2) every slice that escapes (is returned by an API function, stored in a shared object, kept by a
-       callee) lives in an array allocated during the call or in one of those flagged parameters. *)
+       callee) lives in an array allocated during the call or in one of the parameters with a keep flag. *)
 Theorem every_body_frames_the_caller :
   forall e, In e c19_bodies ->
   forall h0 regs o h' regs' lg', List.length regs = fb_nregs e ->
     exec (h0, regs, []) (fb_prog e) o (h', regs', lg') ->
-    (forall s, wf_slice h0 s -> ~ In (arr s) (writable regs (fb_flags e)) ->
+    (forall s, wf_slice h0 s -> ~ In (arr s) (writable regs (fb_wflags e)) ->
        read h' s = read h0 s /\ read_cap h' s = read_cap h0 s) /\
     (forall r, In r lg' ->
        (List.length h0 <= arr r /\ forall s, wf_slice h0 s -> arr s <> arr r) \/
-       In (arr r) (writable regs (fb_flags e))).
+       In (arr r) (writable regs (fb_kflags e))).
 Proof.
   intros e Hin h0 regs o h' regs' lg' Hlen X.
   pose proof every_body_ok as All. rewrite forallb_forall in All. specialize (All _ Hin).
-  unfold body_ok in All. apply andb_prop in All. destruct All as [L D].
-  apply Nat.eqb_eq in L.
-  apply (disciplined_body_frames_the_caller h0 regs (fb_flags e) (fb_prog e) o h' regs' lg'); auto. congruence.
+  unfold body_ok in All. repeat (apply andb_prop in All; destruct All as [All ?]).
+  apply Nat.eqb_eq in All. match goal with H : Nat.eqb _ _ = true |- _ => apply Nat.eqb_eq in H end.
+  apply (disciplined_body_frames_the_caller h0 regs (fb_wflags e) (fb_kflags e) (fb_prog e) o h' regs' lg'); auto; congruence.
 Qed.
 
 (* ... and for every API function outside the exception list there is no flagged parameter: the
-   caller's whole memory is unchanged and whatever the function returns or stores is fresh *)
+   caller's whole memory is unchanged and every byte slice, and every object the analysis follows (objects
+   built in the function, objects it was handed whose type is not whitelisted), that the function returns or
+   stores is fresh *)
 Theorem every_api_body_frames_the_caller :
   forall e, In e c19_bodies -> fb_api e = true -> excepted e = false ->
   forall h0 regs o h' regs' lg', List.length regs = fb_nregs e ->
@@ -73,8 +107,29 @@ Theorem every_api_body_frames_the_caller :
 Proof.
   intros e Hin Ha He h0 regs o h' regs' lg' Hlen X.
   pose proof every_body_ok as All. rewrite forallb_forall in All. specialize (All _ Hin).
-  unfold body_ok in All. apply andb_prop in All. destruct All as [L D]. apply Nat.eqb_eq in L.
+  unfold body_ok in All. repeat (apply andb_prop in All; destruct All as [All ?]).
+  apply Nat.eqb_eq in All. match goal with H : Nat.eqb _ _ = true |- _ => apply Nat.eqb_eq in H end.
   pose proof api_bodies_own_nothing as Fl. rewrite forallb_forall in Fl. specialize (Fl _ Hin).
-  unfold api_flags_ok in Fl. rewrite Ha, He in Fl. simpl in Fl.
-  apply (disciplined_api_body_frames_the_caller h0 regs (fb_flags e) (fb_prog e) o h' regs' lg'); auto. congruence.
+  unfold api_flags_ok in Fl. rewrite Ha, He in Fl. simpl in Fl. apply andb_prop in Fl. destruct Fl as [Fw Fk].
+  apply (disciplined_api_body_frames_the_caller h0 regs (fb_wflags e) (fb_kflags e) (fb_prog e) o h' regs' lg'); auto; congruence.
+Qed.
+
+(* what the call-site obligation says, spelled out for one record: if entry c may write through its j-th
+   parameter register, then every register the caller hands to it is written through in the recorded effect
+   (hence must be writable for the caller's own analysis to pass); likewise for keeping *)
+Theorem call_record_meets_contract :
+  forall wf kf args eff, call_ok_args wf kf args eff = true ->
+  forall j a, In a (nth j args []) ->
+    (nth j wf false = true -> has_write a eff = true) /\ (nth j kf false = true -> has_escape a eff = true).
+Proof.
+  intros wf kf args. revert wf kf. induction args as [|x args IH]; intros wf kf eff H j a Ha.
+  - destruct j; simpl in Ha; contradiction.
+  - simpl in H. apply andb_prop in H. destruct H as [H Hr]. apply andb_prop in H. destruct H as [Hw Hk].
+    destruct j as [|j].
+    + simpl in Ha. split; intros F.
+      * destruct wf as [|w wf]; simpl in *; [discriminate|]. subst w. rewrite forallb_forall in Hw. auto.
+      * destruct kf as [|k kf]; simpl in *; [discriminate|]. subst k. rewrite forallb_forall in Hk. auto.
+    + simpl in Ha. destruct (IH (tl wf) (tl kf) eff Hr j a Ha) as [A B]. split; intros F.
+      * apply A. destruct wf; simpl in *; [destruct j; discriminate|exact F].
+      * apply B. destruct kf; simpl in *; [destruct j; discriminate|exact F].
 Qed.
